@@ -15,6 +15,7 @@ open Martian.Props.C12
 #print axioms aggregate_runs_all_reports_each_once
 #print axioms accept_iff_valid
 #print axioms reject_whole
+#print axioms reject_iff_bad_node_anywhere
 #print axioms bad_child_rejects_parent
 #print axioms reconfig_atomic
 #print axioms rejected_leaves_previous
